@@ -681,6 +681,32 @@ Definition unify_mixed (r : cfns) (is_struct : ty -> bool) (is_collk : ty -> boo
     end
   end.
 
+(* the general case of unify: try each type in preference order as the result; the first one every other type
+   converts to wins.  cs.(i) = None where the i-th type is the chosen one or equal to it, else the conversion found *)
+Definition unify_convs_to (r : cfns) (tys : list ty) (unsafe : bool) (w : nat) (want : ty) : res (option (list (option conv))) :=
+  (fix go (i : nat) (l : list ty) : res (option (list (option conv))) :=
+     match l with
+     | [] => Ok (Some [])
+     | t :: l' =>
+         if Nat.eqb i w || ty_equals t want then
+           do x <- go (S i) l'; Ok (match x with Some m => Some (None :: m) | None => None end)
+         else
+           do c <- c_get r t want unsafe;
+           match c with
+           | None => Ok None
+           | Some f => do x <- go (S i) l'; Ok (match x with Some m => Some (Some f :: m) | None => None end)
+           end
+     end) 0%nat tys.
+Definition unify_generic (r : cfns) (tys : list ty) (unsafe : bool) : res (option (ty * list (option conv))) :=
+  (fix prefs (p : list nat) : res (option (ty * list (option conv))) :=
+     match p with
+     | [] => Ok None
+     | w :: p' =>
+         let want := nth w tys TDyn in
+         do cs <- unify_convs_to r tys unsafe w want;
+         match cs with Some l => Ok (Some (want, l)) | None => prefs p' end
+     end) (sort_types tys).
+
 Definition unify_step (r : cfns) (tys : list ty) (unsafe : bool) : res (option (ty * list (option conv))) :=
   match tys with
   | [] => Ok None
@@ -688,28 +714,7 @@ Definition unify_step (r : cfns) (tys : list ty) (unsafe : bool) : res (option (
     let n := length tys in
     let mapCt := count_if is_mapt tys in let listCt := count_if is_listt tys in let setCt := count_if is_sett tys in
     let objCt := count_if is_objt tys in let tupCt := count_if is_tupt tys in let dynCt := count_if is_dyn tys in
-    let generic :=
-      let pref := sort_types tys in
-      (fix prefs (p : list nat) : res (option (ty * list (option conv))) :=
-         match p with
-         | [] => Ok None
-         | w :: p' =>
-             let want := nth w tys TDyn in
-             do cs <- (fix go (i : nat) (l : list ty) : res (option (list (option conv))) :=
-                         match l with
-                         | [] => Ok (Some [])
-                         | t :: l' =>
-                             if Nat.eqb i w || ty_equals t want then
-                               do x <- go (S i) l'; Ok (match x with Some m => Some (None :: m) | None => None end)
-                             else
-                               do c <- c_get r t want unsafe;
-                               match c with
-                               | None => Ok None
-                               | Some f => do x <- go (S i) l'; Ok (match x with Some m => Some (Some f :: m) | None => None end)
-                               end
-                         end) 0%nat tys;
-             match cs with Some l => Ok (Some (want, l)) | None => prefs p' end
-         end) pref in
+    let generic := unify_generic r tys unsafe in
     if Nat.ltb 0 mapCt && Nat.eqb (mapCt + dynCt) n then unify_collection r TMap tys unsafe (Nat.ltb 0 dynCt)
     else if Nat.ltb 0 mapCt && Nat.eqb (mapCt + objCt + dynCt) n then
       do u <- unify_mixed r is_objt is_mapt unify_objects_to_map tys unsafe;
